@@ -34,7 +34,69 @@ def fsx_stream(run, n, label='doer-model'):
         c = min(bad, key=lambda c: len(c['cmds']))
         run.violation(dict(kind='correspondence-broken', correspondence=f'L3/{label}', disagreeing_cases=len(bad), **fsx.describe(c),
                            note='the doer / file-system model and the real doer differ on this world and command sequence'), no_input=True)
+    unprivileged_doer_stream(run)
     return cases
+
+
+def unprivileged_doer_stream(run, label='unprivileged-doer'):
+    """L3 as uid 65534: the real doer on a destination that is writable for it but holds files and folders of another owner (mode 666 / 777 /
+    644 / 755): calls that the kernel refuses for ownership reasons (utimensat on a file one may write but does not own, open of a read-only
+    file, creation in a folder one may not write) must be *answered with an error*; a command answered without one has taken full effect
+    (bytes and time).  Root never sees these refusals, so the other streams cannot."""
+    import subprocess
+    def pre():
+        os.setgroups([]); os.setgid(65534); os.setuid(65534)
+    try:
+        probe = subprocess.run([C.HARNESS_BIN, '--verif'], input=b'\n', capture_output=True, timeout=30, preexec_fn=pre)
+    except (OSError, subprocess.SubprocessError):
+        run.count(f'{label}:skipped:uid-65534-cannot-run-the-harness'); return
+    if probe.returncode != 0:
+        run.count(f'{label}:skipped:uid-65534-cannot-run-the-harness'); return
+    d = tempfile.mkdtemp(prefix='rjv-unpriv-')
+    try:
+        os.chmod(d, 0o755)
+        dst = os.path.join(d, 'dst'); os.makedirs(dst); os.chown(dst, 65534, 65534); os.chmod(dst, 0o777)
+        T0 = 1_500_000_000
+        def mk(rel, owner, mode, data=b'old contents'):
+            pth = os.path.join(dst, rel)
+            with open(pth, 'wb') as f: f.write(data)
+            os.chown(pth, owner, owner); os.chmod(pth, mode); os.utime(pth, (T0, T0))
+        mk('own', 65534, 0o644); mk('shared666', 12345, 0o666); mk('shared666b', 12345, 0o666, b'x' * 9000); mk('readonly', 12345, 0o644)
+        os.makedirs(dst + '/theirs'); os.chown(dst + '/theirs', 12345, 12345); os.chmod(dst + '/theirs', 0o755)
+        os.makedirs(dst + '/open777'); os.chown(dst + '/open777', 12345, 12345); os.chmod(dst + '/open777', 0o777)
+        mt = 1_600_000_000_123_456_789
+        new = l3.content(5, 5000)
+        cases = [('own', [new]), ('shared666', [new]), ('shared666b', [new[:4096], new[4096:]]), ('readonly', [new]), ('theirs/new', [new]), ('open777/new', [new[:100], b'', new[100:]]), ('brand-new', [new])]
+        lines = []
+        for rel, parts in cases:
+            cmds = [['SR', C.X(dst)]]
+            for i, part in enumerate(parts):
+                last = i == len(parts) - 1
+                cmds.append(['CUF', C.X(rel), C.X(part), str(mt) if last else '-', '0' if last else '1'])
+            lines.append(l3.l3_line(cmds, 20000))
+        p = subprocess.run([C.HARNESS_BIN, '--verif'], input='\n'.join(lines) + '\n', capture_output=True, text=True, timeout=120, preexec_fn=pre, env=C.ENV)
+        answers = [l[3:] for l in p.stdout.split('\n') if l.startswith('@@ ')]
+        for (rel, parts), ans in zip(cases, answers + ['no answer'] * len(cases)):
+            run.case((label, rel), True, sample=dict(layer='L3', uid=65534, path=rel, parts=len(parts), impl=ans[:200]))
+            run.count(f'{label}:{"error" if "Error(" in ans else "ok"}'); run.cov['traces_validated_against_impl'] += 1
+            if not ans.startswith('resp='):
+                run.violation(dict(kind='oracle-failed-on-implementation', layer='L3', oracle='the doer answers', path=rel, impl=ans[:500])); break
+            if 'Error(' in ans:
+                continue
+            pth = os.path.join(dst, rel)
+            try:
+                st = os.stat(pth); got = open(pth, 'rb').read()
+            except OSError as e:
+                st, got = None, None
+            want = b''.join(parts)
+            if got != want or st is None or st.st_mtime_ns != mt:
+                run.violation(dict(kind='oracle-failed-on-implementation', layer='L3', oracle='a CreateOrUpdateFile sequence answered without an error has taken full effect: the bytes and the modification time sent',
+                                   how='the real doer (in-process harness) running as uid 65534 in a mode-777 folder; the file belongs to uid 12345 with the mode shown',
+                                   path=rel, mode=oct(os.stat(pth).st_mode & 0o777) if st else None, owner=st.st_uid if st else None, impl=ans[:400],
+                                   bytes_as_sent=got == want, mtime_found=st.st_mtime_ns if st else None, mtime_sent=mt))
+                break
+    finally:
+        subprocess.run(['chmod', '-R', 'u+rwx', d], capture_output=True); shutil.rmtree(d, ignore_errors=True)
 
 
 # ------------------------------------------------------------------ C12
